@@ -91,7 +91,7 @@ def gen_script(rng, schema, hid, nadv):
     tracks = ["t1", "t2", "tx"]
     for j in range(nadv):
         L.append(adversarial(rng, hid * 1000 + j, crates, tracks))
-    return L + K.moved_subtree_probe("mkroot")
+    return L + K.moved_subtree_probe("mkroot") + K.failed_call_probe()
 
 
 stale_of = K.removed_handles
